@@ -14,6 +14,19 @@ Monitors
            confirmation (0x1E) per bearer, truncation to ATT_MTU-3, recipients == subscribed
            bearers (CCCD writes seen on the wire), indicate returns after the confirmation
            reached the server host (host-boundary log order)
+  bearer   per-bearer state through every read path: after any pattern of CCCD writes (subscribe /
+           unsubscribe / raw 0..3 by request or command) on the fixed bearer, on 1-2 enhanced bearers
+           of the same connection and on other connections, Read (client API and hand-written
+           request), Read Blob, Read By Type (0x2902 / the characteristic's UUID; hand-written and
+           read_characteristics_by_uuid), Read Multiple and Read Multiple Variable on a bearer return
+           what THAT bearer wrote (0000 if never); the same for characteristics whose value callback
+           is keyed by the bearer (AttributeValueV2) or by the connection (AttributeValue), read,
+           written and notified (value=None) per bearer. Responses are judged as bytes on the wire.
+  failed   an indication whose confirmation never reaches the server (peer silent / lost at the
+           server's host boundary / delivered only after the call gave up) makes the call fail with
+           a timeout after virtual time passed, a pending indicate call is cancelled; the NEXT
+           indication on that bearer must be on the wire as an indication, confirmed, the call must
+           complete (keys carry the history class after-timeout / after-cancel)
   term     a hand-driven adversarial ATT server (RawPeer) answers every discovery procedure
            with non-progressing responses; requests are counted on the wire
 """
@@ -34,7 +47,9 @@ RULE = ('seeded cases. db: random database (0-6 services incl. secondary, includ
         'MTU-3, 0..512) x client/server MTU preference 23..517 x optional enhanced bearers x ACL geometry x '
         'delay schedule; non-trivial when the database has >= 1 characteristic and the wire shows a '
         'multi-request discovery or a Read Blob. notif: 1-3 clients x fixed+enhanced bearers x random '
-        'subscription sets x every server API form; non-trivial when >= 1 PDU was delivered and >= 1 bearer '
+        'subscription sets x every server API form x per-bearer reads of CCCDs and bearer-/connection-scoped '
+        'values through 7 read paths x indications left unconfirmed (5 fault forms) or cancelled, each followed '
+        'by another indication to the same bearer; non-trivial when >= 1 PDU was delivered and >= 1 bearer '
         'was (correctly or not) left out. term: procedure x adversarial strategy; non-trivial when the '
         'adversary answered >= 1 request. distinct = distinct descriptor tuple')
 ASSUMPTIONS = [
@@ -46,6 +61,13 @@ ASSUMPTIONS = [
     'further bearers are reached is not pinned, only their PDU kind and truncation',
     'notify/indicate_subscriber(connection, force=False) addresses every bearer of that connection',
     'writes longer than ATT_MTU-3 (long writes) are not exercised: the server has no Prepare Write',
+    'Read Blob of a value that fits in one Read Response may be answered with the data or with Attribute Not Long '
+    '(Vol 3 Part F 3.4.4.5); Read Multiple (Variable) is only judged on sets of values that fit in ATT_MTU-1 '
+    'untruncated with every value <= 251 bytes (how a server truncates such a set is not part of the property)',
+    'an indication that is not confirmed: the single-bearer call must fail (not return normally) and not before '
+    'virtual time passed; indicate_subscribers may return normally after the wait. While one bearer of a '
+    'connection is left unconfirmed the faulted call addresses that bearer only (what indicate_subscriber does '
+    'to the remaining bearers of the connection after a timeout is not pinned)',
     'termination: more than 1000 requests or a virtual-time hang is a violation; strategies whose responses '
     'legitimately advance by one handle are only used on ranges of <= 64 handles',
 ]
@@ -53,11 +75,22 @@ MIN_EVENTS = {
     'quick': {'tree_checks': 3000, 'read_checks': 3500, 'read_checks_long': 800, 'write_checks': 600,
               'notif_api_calls': 800, 'wire_notifications': 400, 'wire_indications': 300,
               'confirm_order_checks': 300, 'truncation_checks': 700, 'callback_checks': 700,
-              'term_procedures': 600, 'wire_att_pdus': 40000},
+              'term_procedures': 600, 'wire_att_pdus': 40000,
+              # per-bearer state through every read path; indications after a failed one
+              'bearer_read_checks': 800, 'bearer_read_checks_state_differs': 500,
+              'bearer_read_checks_eatt_differs_from_fixed': 250, 'bearer_read_read': 120, 'bearer_read_blob': 100,
+              'bearer_read_by_type': 100, 'bearer_read_multiple': 80, 'bearer_read_multiple_variable': 80,
+              'failed_indications': 70, 'unconfirmed_indications_on_wire': 70, 'indications_after_failed': 100,
+              'indications_after_timeout': 70, 'indications_after_cancel': 25},
     'thorough': {'tree_checks': 90000, 'read_checks': 100000, 'read_checks_long': 24000, 'write_checks': 18000,
                  'notif_api_calls': 24000, 'wire_notifications': 12000, 'wire_indications': 9000,
                  'confirm_order_checks': 9000, 'truncation_checks': 21000, 'callback_checks': 21000,
-                 'term_procedures': 18000, 'wire_att_pdus': 1200000},
+                 'term_procedures': 18000, 'wire_att_pdus': 1200000,
+                 'bearer_read_checks': 24000, 'bearer_read_checks_state_differs': 15000,
+                 'bearer_read_checks_eatt_differs_from_fixed': 7500, 'bearer_read_read': 3600, 'bearer_read_blob': 3000,
+                 'bearer_read_by_type': 3000, 'bearer_read_multiple': 2400, 'bearer_read_multiple_variable': 2400,
+                 'failed_indications': 2100, 'unconfirmed_indications_on_wire': 2100, 'indications_after_failed': 3000,
+                 'indications_after_timeout': 2100, 'indications_after_cancel': 750},
 }
 CASE_TIMEOUT = 600
 
@@ -172,9 +205,10 @@ def proxy_uuid(u) -> bytes:
     return rg.u128(bytes(u.uuid_bytes))
 
 
-def build_server(db: rg.Db, device):
+def build_server(db: rg.Db, device, scoped=None):
     """Creates the bumble objects for `db` and adds the top-level services in order.
-    Returns {id(model obj): bumble attribute}."""
+    Returns {id(model obj): bumble attribute}. `scoped(c)` supplies the value object of a
+    characteristic whose model carries a `scope` ('bearer' | 'conn': the value depends on who reads)."""
     from bumble import gatt
 
     objs = {}
@@ -188,7 +222,9 @@ def build_server(db: rg.Db, device):
                 do = gatt.Descriptor(uuid_obj(d.uuid), perms, d.value)
                 objs[id(d)] = do
                 descs.append(do)
-            if c.dynamic:
+            if scoped is not None and getattr(c, 'scope', None):
+                value = scoped(c)
+            elif c.dynamic:
                 def rd(_conn, c=c):
                     return c.value
 
@@ -687,6 +723,9 @@ class HB:
         self.cccd = {}                 # value handle -> last CCCD value written on this bearer (wire)
         self.cbs = {}                  # value handle -> {'n': count, 'i': count}
         self.cb_log = []               # (value handle, kind, value)
+        self.hist = ''                 # 'after-timeout' | 'after-cancel' once an indication on it failed
+        self.who = 0                   # small id the scoped values are derived from (1 + idx)
+        self.conn_who = 0              # id of the fixed bearer of the same connection
 
     @property
     def name(self):
@@ -718,7 +757,33 @@ async def notif_case(case, r: R):
                     le_acl_len=[rng.choice([27, 64, 251]) for _ in range(n)], configs=make_configs(n, {0}))
     srv = rig_.devices[0]
     server = srv.gatt_server
-    objs = build_server(db, srv)
+    # characteristics whose value depends on who reads it: 'bearer' (AttributeValueV2: the callback is
+    # handed the bearer) and 'conn' (AttributeValue: handed the connection, also on an enhanced bearer).
+    # The callbacks only map the object they are handed to the small id the harness gave it.
+    who_id: dict[int, int] = {}      # id(server-side Connection / enhanced channel) -> 1 + bearer idx
+    for c in subs:
+        x = rng.random()
+        c.scope = 'bearer' if x < 0.3 else 'conn' if x < 0.45 else None
+        c.over = {}                  # who -> value written through that bearer / connection
+        if c.scope and rng.random() < 0.5:
+            c.value = make_value(len(c.value), rng.choice([1, 7, 22, 23, 40, 64, 100, 255, 300, 512]))
+
+    def scoped_bytes(c, who: int) -> bytes:
+        ov = c.over.get(who)
+        return ov if ov is not None else make_value((c.handle * 5 + 29 * who) & 0xFF, len(c.value))
+
+    def scoped(c):
+        from bumble import gatt
+
+        def rd(obj, c=c):
+            return scoped_bytes(c, who_id.get(id(obj), 0))
+
+        def wr(obj, v, c=c):
+            c.over[who_id.get(id(obj), 0)] = bytes(v)
+
+        return (att.AttributeValueV2 if c.scope == 'bearer' else gatt.CharacteristicValue)(read=rd, write=wr)
+
+    objs = build_server(db, srv, scoped)
     server.max_mtu = s_mtu
     server.register_eatt(l2cap.LeCreditBasedChannelSpec(psm=att.EATT_PSM, mtu=es_mtu))
     await rig_.power_on()
@@ -759,6 +824,11 @@ async def notif_case(case, r: R):
             if len(chans) != 1:
                 raise RuntimeError(f'server end of enhanced bearer not found ({len(chans)})')
             hb.server_bearer = chans[0]
+    for hb in bearers:
+        hb.who = 1 + hb.idx
+        who_id[id(hb.server_bearer)] = hb.who
+    for hb in bearers:
+        hb.conn_who = who_id[id(hb.sconn)]
     # each bearer discovers the characteristics it will subscribe to
     for hb in bearers:
         svcs = await vloop.vwait(hb.client.discover_services())
@@ -829,11 +899,266 @@ async def notif_case(case, r: R):
                         lambda: f'{hb.name}: after unsubscribe the last CCCD write is {hb.cccd.get(c.handle)}; {ctx()}')
             r.ev('unsubscriptions')
 
-    async def do_raw_cccd(hb: HB, c: rg.Char, value: int):
+    async def do_raw_cccd(hb: HB, c: rg.Char, value: int, with_response: bool = True):
         ok, _ = await call(r, f'cccd-write/{hb.kind}',
-                           hb.client.write_value(c.cccd.handle, struct.pack('<H', value), True))
+                           hb.client.write_value(c.cccd.handle, struct.pack('<H', value), with_response))
         await rig_.quiesce()
         absorb()
+        r.ev('raw_cccd_writes')
+
+    # ---- per-bearer state through every read path ---------------------------------------------
+    def exp_attr(b: HB, h: int) -> bytes:
+        """What a read of handle `h` over bearer `b` must return (spec + what was written on the wire)."""
+        kind = db.attrs[h][1]
+        if kind == 'cccd':
+            return struct.pack('<H', b.cccd.get(cccd_handles[h].handle, 0))
+        if kind == 'value':
+            cc = db.attrs[h][2]
+            if cc.scope == 'bearer':
+                return scoped_bytes(cc, b.who)
+            if cc.scope == 'conn':
+                return scoped_bytes(cc, b.conn_who)
+        return db.expected_value(h)
+
+    def attr_kind(h: int) -> str:
+        kind = db.attrs[h][1]
+        if kind == 'value':
+            sc = db.attrs[h][2].scope
+            return f'{sc}-scoped-value' if sc else 'plain-value'
+        return kind
+
+    read_targets = [c.cccd.handle for c in subs if c.cccd] + [c.handle for c in subs if c.scope]
+    short_handles = sorted(h for h in db.attrs if db.attrs[h][1] in ('cccd', 'service', 'chardecl')
+                           or (db.attrs[h][1] == 'value' and db.attrs[h][2].scope and len(db.attrs[h][2].value) <= 7))
+    READ_PATHS = ['read-api', 'read', 'blob', 'by-type', 'by-type-api', 'multiple', 'multiple-variable',
+                  'find-by-type-value']
+
+    async def raw_exchange(b: HB, req: bytes) -> list:
+        """A hand-written request goes out on `b`; returns the PDUs the server put on that bearer."""
+        b.client.send_gatt_pdu(req)
+        await rig_.quiesce()
+        new = absorb()
+        got_req = [p for _s, sender, p, _m in new[b.idx] if sender != 0]
+        if got_req != [req]:
+            raise RuntimeError(f'harness: request {req.hex()} seen on the wire of {b.name} as {[p.hex() for p in got_req]}')
+        return [p for _s, sender, p, _m in new[b.idx] if sender == 0]
+
+    def differing(b: HB, h: int):
+        """(differs from another bearer of the same connection, eatt differing from its fixed bearer)"""
+        e = exp_attr(b, h)
+        same_conn = [o for o in bearers if o is not b and o.sconn is b.sconn]
+        d1 = any(exp_attr(o, h) != e for o in same_conn)
+        d2 = b.kind == 'eatt' and any(o.kind == 'fixed' and exp_attr(o, h) != e for o in same_conn)
+        return d1, d2
+
+    async def do_read(b: HB, h: int | None = None, path: str | None = None, hist: str = ''):
+        m = b.wire.mtu
+        if h is None:
+            h = rng.choice(read_targets)
+        path = path or rng.choice(READ_PATHS)
+        exp = exp_attr(b, h)
+        if path == 'find-by-type-value' and (len(db.attrs[h][0]) != 2 or len(exp) > m - 7):
+            path = 'read'           # the request carries a 16-bit type and the whole value
+        if path in ('multiple', 'multiple-variable'):
+            per = 2 if path == 'multiple-variable' else 0
+            hs, total = [h], per + len(exp)
+            pool = [x for x in short_handles if x != h]
+            rng.shuffle(pool)
+            for x in pool[:rng.choice([1, 2, 3])]:
+                if total + per + len(exp_attr(b, x)) <= m - 1 and len(exp_attr(b, x)) <= 251:
+                    hs.append(x)
+                    total += per + len(exp_attr(b, x))
+            rng.shuffle(hs)
+            if len(hs) < 2 or total > m - 1 or len(exp) > 251:
+                path = 'read'       # (see ASSUMPTIONS: Read Multiple is only judged on sets that fit untruncated)
+        ak = attr_kind(h)
+        key = f'per-bearer-read/{ak}/{path}/{b.kind}' + (f'/{hist}' if hist else '')
+        d1, d2 = differing(b, h)
+
+        def where():
+            others = {o.name: exp_attr(o, h)[:8].hex() for o in bearers if o is not b and o.sconn is b.sconn}
+            return (f'{b.name} (ATT_MTU {m}) handle {h} ({ak}); this bearer must see {exp[:8].hex()}'
+                    f'{".." if len(exp) > 8 else ""} ({len(exp)} bytes), the other bearers of the connection '
+                    f'{others}; {ctx()}')
+
+        verdict = None      # (ok, text)
+        if path == 'read-api':
+            ok, v = await call(r, key, b.client.read_value(h))
+            await rig_.quiesce()
+            absorb()
+            if not ok:
+                return
+            verdict = (bytes(v) == exp, f'read_value returned {len(v)} bytes {bytes(v)[:8].hex()}')
+        elif path == 'by-type-api':
+            u = db.attrs[h][0]
+            ok, vals = await call(r, key, b.client.read_characteristics_by_uuid(uuid_obj(u), None))
+            await rig_.quiesce()
+            absorb()
+            if not ok:
+                return
+            limit = min(m - 4, 253)
+            want = [exp_attr(b, x)[:limit] for x in sorted(db.attrs) if rg.u128(db.attrs[x][0]) == rg.u128(u)]
+            verdict = ([bytes(v) for v in vals] == want,
+                       f'read_characteristics_by_uuid returned {[bytes(v)[:4].hex() for v in vals]} expected '
+                       f'{[v[:4].hex() for v in want]}')
+        else:
+            if path == 'read':
+                req = struct.pack('<BH', rg.OP_READ_REQ, h)
+                allowed = [bytes([rg.OP_READ_RSP]) + exp[:m - 1]]
+            elif path == 'blob':
+                off = rng.choice([0, 1, 2, len(exp), len(exp) + 1, m - 1, rng.randint(0, max(1, len(exp)))])
+                req = struct.pack('<BHH', rg.OP_READ_BLOB_REQ, h, off)
+                allowed = []
+                if off > len(exp):
+                    allowed.append(rg.error_rsp(rg.OP_READ_BLOB_REQ, h, 0x07))      # Invalid Offset
+                else:
+                    allowed.append(bytes([rg.OP_READ_BLOB_RSP]) + exp[off:off + m - 1])
+                if len(exp) <= m - 1:
+                    allowed.append(rg.error_rsp(rg.OP_READ_BLOB_REQ, h, 0x0B))      # Attribute Not Long (may)
+            elif path == 'by-type':
+                u = db.attrs[h][0]
+                svc = [s for s in db.services if s.placed and s.handle <= h <= s.end][0]
+                lo = rng.choice([1, h, svc.handle])
+                hi = rng.choice([0xFFFF, h, svc.end])
+                req = struct.pack('<BHH', rg.OP_READ_BY_TYPE_REQ, lo, hi) + rg.pdu_uuid(u)
+                limit = min(m - 4, 253)
+                ents = []
+                for x in sorted(db.attrs):
+                    if lo <= x <= hi and rg.u128(db.attrs[x][0]) == rg.u128(u):
+                        v = exp_attr(b, x)[:limit]
+                        if ents and (len(v) != len(ents[0][1]) or 2 + (len(ents) + 1) * (2 + len(v)) > m):
+                            break
+                        ents.append((x, v))
+                # any non-empty prefix of the run of equal-length entries is a valid response
+                allowed = [rg.read_by_type_rsp(ents[:k]) for k in range(1, len(ents) + 1)]
+            elif path == 'find-by-type-value':
+                # which attributes of this type hold, for THIS bearer, the value this bearer must see
+                svc = [s for s in db.services if s.placed and s.handle <= h <= s.end][0]
+                lo = rng.choice([1, h, svc.handle])
+                hi = rng.choice([0xFFFF, h, svc.end])
+                req = struct.pack('<BHH', rg.OP_FIND_BY_TYPE_REQ, lo, hi) + db.attrs[h][0] + exp
+                hits = [(x, x) for x in sorted(db.attrs) if lo <= x <= hi
+                        and rg.u128(db.attrs[x][0]) == rg.u128(db.attrs[h][0]) and exp_attr(b, x) == exp]
+                hits = hits[:(m - 1) // 4]
+                allowed = [rg.find_by_type_rsp(hits[:k]) for k in range(1, len(hits) + 1)]
+            elif path == 'multiple':
+                req = bytes([0x0E]) + b''.join(struct.pack('<H', x) for x in hs)
+                allowed = [bytes([0x0F]) + b''.join(exp_attr(b, x) for x in hs)]
+            else:
+                req = bytes([0x20]) + b''.join(struct.pack('<H', x) for x in hs)
+                allowed = [bytes([0x21]) + b''.join(struct.pack('<H', len(exp_attr(b, x))) + exp_attr(b, x)
+                                                    for x in hs)]
+            rsp = await raw_exchange(b, req)
+            verdict = (len(rsp) == 1 and rsp[0] in allowed,
+                       f'request {req.hex()} answered {[p[:24].hex() for p in rsp]}, allowed '
+                       f'{[p[:24].hex() for p in allowed[:3]]}')
+        r.ev('bearer_read_checks')
+        r.ev(f'bearer_read_{path.replace("-", "_")}')
+        if b.kind == 'eatt':
+            r.ev('bearer_read_checks_eatt')
+        if d1:
+            r.ev('bearer_read_checks_state_differs')
+        if d2:
+            r.ev('bearer_read_checks_eatt_differs_from_fixed')
+        if hist:
+            r.ev('requests_after_failed')
+            r.ev(f'requests_{hist.replace("-", "_")}')
+        r.check(verdict[0], key, lambda: f'{verdict[1]}; {where()}')
+
+    async def do_client_fault(b: HB):
+        """A client request whose response does not reach the client (lost / delivered only after the client
+        gave up) fails with a timeout, or the pending call is cancelled; the next request on that bearer must
+        be sent and answered as usual."""
+        mode = rng.choice(['timeout/lost', 'timeout/late', 'timeout/late', 'cancel/lost', 'cancel/late'])
+        if b.kind == 'eatt':
+            mode = mode.replace('lost', 'late')      # dropping a K-frame would also lose an L2CAP credit
+        fk = mode.split('/')[0]
+        h = rng.choice([c.cccd.handle for c in with_cccd])       # 2-byte value: the response is one ACL packet
+        cid = rg.ATT_CID if b.kind == 'fixed' else b.wire.c_cid
+        held = []
+
+        def flt(pkt: bytes):
+            if pkt[:1] == b'\x02' and len(pkt) >= 9:
+                hf, _ln, _l2, pcid = struct.unpack_from('<HHHH', pkt, 1)
+                if (hf & 0xFFF) == b.cconn.handle and ((hf >> 12) & 3) != 1 and pcid == cid:
+                    held.append(pkt)
+                    return None
+            return pkt
+
+        rig_.c2h[b.dev].filters.append(flt)
+        t0 = loop.time()
+        task = asyncio.ensure_future(b.client.read_value(h))
+        premature = False
+        if fk == 'cancel':
+            await rig_.quiesce()
+            premature = task.done()
+            task.cancel()
+        done, _pending = await asyncio.wait([task], timeout=vloop.T_V)
+        if not done:
+            outcome = 'hang'
+            task.cancel()
+        elif task.cancelled():
+            outcome = 'cancelled'
+        elif task.exception() is not None:
+            outcome = f'raised/{type(task.exception()).__name__}'
+        else:
+            outcome = 'returned'
+        elapsed = loop.time() - t0
+        rig_.c2h[b.dev].filters.remove(flt)
+        if mode.endswith('late'):
+            for pkt in held:
+                rig_.c2h[b.dev].on_packet(pkt)
+        await rig_.quiesce()
+        absorb()
+        r.ev('failed_client_requests')
+        r.ev(f'failed_client_requests_{fk}')
+        r.ev('oracle_evals')
+        where = (f'read_value({h}) on {b.name} with the response withheld at the client host ({mode}, '
+                 f'{len(held)} packets): {outcome} after {elapsed:g} virtual s; {ctx()}')
+        if len(held) != 1:
+            raise RuntimeError(f'harness: expected one response packet, held {len(held)}')
+        if outcome == 'hang':
+            r.bad(f'read/unanswered-request/{fk}/hang/{b.kind}', where)
+            return
+        if fk == 'timeout':
+            if outcome == 'returned':
+                r.bad(f'read/unanswered-request/returned-a-value/{b.kind}', where)
+            elif 'Timeout' not in outcome:
+                r.bad(f'read/unanswered-request/{outcome}/{b.kind}', where)
+            elif elapsed < 1.0:
+                r.bad(f'read/unanswered-request/did-not-wait/{b.kind}', where)
+        elif premature or outcome != 'cancelled':
+            r.bad(f'read/unanswered-request/cancel/{outcome}/{b.kind}', where)
+        hist = 'after-request-timeout' if fk == 'timeout' else 'after-request-cancel'
+        for _ in range(2):
+            await do_read(b, None, rng.choice(['read-api', 'by-type-api', 'read-api', 'read']), hist)
+
+    async def do_scoped_write(b: HB):
+        cs = [c for c in subs if c.scope]
+        if not cs:
+            return
+        c = rng.choice(cs)
+        m = b.wire.mtu
+        data = make_value(rng.randint(0, 255), max(0, min(512, rng.choice([0, 1, 2, m - 4, m - 3, rng.randint(0, m - 3)]))))
+        with_response = rng.random() < 0.6
+        before = dict(c.over)
+        ok, _ = await call(r, f'per-bearer-write/{c.scope}-scoped-value/{b.kind}',
+                           b.client.write_value(c.handle, data, with_response))
+        await rig_.quiesce()
+        absorb()
+        if not ok:
+            return
+        who = b.who if c.scope == 'bearer' else b.conn_who
+        want = {**before, who: data}
+        got = dict(c.over)
+        r.ev('bearer_write_checks')
+        r.check(got == want, f'per-bearer-write/{c.scope}-scoped-value/{b.kind}',
+                lambda: f'{b.name} wrote {len(data)} bytes to handle {c.handle} ({c.scope}-scoped): the write '
+                        f'callback stored it for ids {sorted(k for k in got if got[k] != before.get(k))} '
+                        f'(0 = an object that is neither a connection nor a bearer of this server), expected '
+                        f'for id {who} only; {ctx()}')
+        c.over = want                # keep the model in step with what the peer did
+        await do_read(b, c.handle, rng.choice(['read-api', 'read', 'blob']))
 
     with_cccd = [c for c in subs if c.cccd]
     for hb in bearers:
@@ -842,10 +1167,33 @@ async def notif_case(case, r: R):
                 await do_subscribe(hb, c, rng.random() < 0.5)
 
     delivered = suppressed = 0
-    steps = rng.randint(8, 16)
+    steps = rng.randint(10, 20)
     sample_steps = []
-    for _step in range(steps):
-        op = rng.choices(['api', 'sub', 'unsub', 'both'], [12, 1.5, 1.0, 0.8])[0]
+    loop = asyncio.get_running_loop()
+    FAULTS = ['timeout/silent', 'timeout/silent', 'timeout/lost', 'timeout/late', 'cancel/silent', 'cancel/late']
+
+    def conf_matcher(b: HB):
+        """Recognises, at the server's controller->host boundary, the ACL packet that carries the Handle
+        Value Confirmation of bearer `b` (a confirmation is 1 byte: never fragmented)."""
+        body = b'\x1e' if b.kind == 'fixed' else b'\x01\x00\x1e'
+        l2 = struct.pack('<HH', len(body), rg.ATT_CID if b.kind == 'fixed' else b.wire.s_cid) + body
+
+        def match(pkt: bytes) -> bool:
+            if pkt[:1] != b'\x02' or len(pkt) < 5:
+                return False
+            hf, ln = struct.unpack_from('<HH', pkt, 1)
+            return (hf & 0xFFF) == b.sconn.handle and pkt[5:5 + ln] == l2
+        return match
+
+    followup = None      # (bearer, characteristic): the next step indicates to it again
+    step = 0
+    while step < steps or followup is not None:
+        step += 1
+        fault = None
+        is_followup = False
+        op = 'api' if followup is not None else rng.choices(
+            ['api', 'sub', 'unsub', 'cccd', 'read', 'write', 'fault', 'client-fault'],
+            [12, 1.5, 1.0, 1.6, 5.0, 0.8, 1.8, 0.9])[0]
         hb = rng.choice(bearers)
         if op == 'sub':
             await do_subscribe(hb, rng.choice(with_cccd), rng.random() < 0.5)
@@ -853,12 +1201,42 @@ async def notif_case(case, r: R):
         if op == 'unsub':
             await do_unsubscribe(hb, rng.choice(with_cccd))
             continue
-        if op == 'both':
-            await do_raw_cccd(hb, rng.choice(with_cccd), 3)
+        if op == 'cccd':
+            await do_raw_cccd(hb, rng.choice(with_cccd), rng.choice([0, 1, 2, 3, 3]), rng.random() < 0.7)
+            continue
+        if op == 'read':
+            await do_read(hb)
+            continue
+        if op == 'write':
+            await do_scoped_write(hb)
+            continue
+        if op == 'client-fault':
+            await do_client_fault(hb)
             continue
         api = rng.choice(['notify_subscriber', 'indicate_subscriber', 'notify_subscribers', 'indicate_subscribers'])
         force = rng.random() < 0.35
         c = rng.choice(with_cccd) if rng.random() < 0.9 else rng.choice(subs)
+        if op == 'fault' or followup is not None:
+            # an indication that is never confirmed / whose call is cancelled, then (next step) another
+            # indication to the same bearer
+            if followup is not None:
+                hb, c = followup
+                followup = None
+                is_followup = True
+            else:
+                fault = rng.choice(FAULTS)
+                c = rng.choice(with_cccd)
+                if fault == 'timeout/lost' and hb.kind == 'eatt':
+                    fault = 'timeout/late'    # dropping a K-frame would also lose an L2CAP credit
+            subscribed = bool(hb.cccd.get(c.handle, 0) & 2)
+            if subscribed and not (fault or '').startswith('cancel') and rng.random() < 0.5:
+                api = 'indicate_subscribers'
+                force = rng.random() < 0.3
+            else:
+                api = 'indicate_subscriber'
+                # a faulted call addresses the victim only (a fixed bearer without force addresses
+                # every bearer of the connection one after the other)
+                force = (not subscribed) or (fault is not None and hb.kind == 'fixed') or rng.random() < 0.4
         attr = objs[id(c)]
         K = 'n' if api.startswith('notify') else 'i'
         bit = 1 if K == 'n' else 2
@@ -872,6 +1250,14 @@ async def notif_case(case, r: R):
             value = make_value(rng.randint(0, 255), max(0, min(512, rng.choice(
                 [0, 1, m - 4, m - 3, m - 2, m - 1, m, 2 * m, 512, rng.randint(0, 512)]))))
             full = value
+
+        def full_of(b: HB, value=value, full=full, c=c) -> bytes:
+            """The value the PDU on bearer `b` carries before truncation (value=None: the server reads the
+            attribute on behalf of that bearer)."""
+            if value is None and c.scope:
+                return scoped_bytes(c, b.who if c.scope == 'bearer' else b.conn_who)
+            return full
+
         sub_now = {b.idx for b in bearers if b.cccd.get(c.handle, 0) & bit}
         if single:
             if force:
@@ -886,6 +1272,9 @@ async def notif_case(case, r: R):
             must = set(sub_now)
         cls = f'{hb.kind}/' if single else ''
         fcls = 'force' if force else 'noforce'
+        # history class of the bearers this call addresses: an earlier indication on one of them failed
+        hists = sorted({b.hist for b in bearers if b.hist and K == 'i' and (exact is None or b.idx in exact)})
+        hsfx = f'/{"+".join(hists)}' if hists else ''
         b0 = len(rig_.boundary_log)
         for b in bearers:
             b.cb_log.clear()
@@ -893,13 +1282,89 @@ async def notif_case(case, r: R):
             aw = getattr(server, api)(hb.server_bearer, attr, value, force)
         else:
             aw = getattr(server, api)(attr, value, force)
-        ok, _ = await call(r, f'delivery/{api}/{cls}{fcls}', aw)
-        b1 = len(rig_.boundary_log)
+        if fault is None:
+            ok, _ = await call(r, f'delivery/{api}/{cls}{fcls}{hsfx}', aw)
+            b1 = len(rig_.boundary_log)
+        else:
+            # ---- the confirmation of `hb` does not reach the server while the call is pending ----
+            held = []
+            flt = None
+            if fault.endswith('silent'):
+                hb.client.send_confirmation = lambda _c: None      # this peer does not confirm
+            else:
+                match = conf_matcher(hb)
+
+                def flt(pkt, match=match, held=held):
+                    if match(pkt):
+                        held.append(pkt)
+                        return None
+                    return pkt
+
+                rig_.c2h[0].filters.append(flt)
+            t0 = loop.time()
+            premature = False
+            # (not vloop.vwait: the server reports its own timeout with the builtin TimeoutError, which
+            # wait_for's expiry could not be told from)
+            task = asyncio.ensure_future(aw)
+            if fault.startswith('cancel'):
+                await rig_.quiesce()            # the indication is out; no virtual time has passed
+                premature = task.done()
+                task.cancel()
+            done, _pending = await asyncio.wait([task], timeout=vloop.T_V)
+            if not done:
+                outcome = 'hang'
+                task.cancel()
+            elif task.cancelled():
+                outcome = 'cancelled'
+            elif task.exception() is not None:
+                outcome = f'raised/{type(task.exception()).__name__}'
+            else:
+                outcome = 'returned'
+            elapsed = loop.time() - t0
+            b1 = len(rig_.boundary_log)
+            if flt is None:
+                del hb.client.send_confirmation
+            else:
+                rig_.c2h[0].filters.remove(flt)
+                if fault.endswith('late'):
+                    for pkt in held:            # the confirmation arrives when nothing is pending any more
+                        rig_.c2h[0].on_packet(pkt)
+            fk = fault.split('/')[0]
+            r.ev('failed_indications')
+            r.ev(f'failed_indications_{fault.replace("/", "_")}')
+            r.ev('oracle_evals')
+            ok = True
+            where = (f'{api}(target={hb.name if single else "all"}, force={force}) with the confirmation of {hb.name} '
+                     f'withheld ({fault}): {outcome} after {elapsed:g} virtual s; {ctx()}')
+            if outcome == 'hang':
+                r.bad(f'indication/{fk}/{api}/hang{hsfx}', where)
+                ok = False
+            elif fk == 'timeout':
+                if outcome == 'returned' and single:
+                    r.bad(f'indication/unconfirmed-call-succeeded/{api}/{hb.kind}{hsfx}', where)
+                elif outcome.startswith('raised/') and 'Timeout' not in outcome:
+                    r.bad(f'delivery/{api}/{cls}{fcls}{hsfx}/{outcome}', where)
+                    ok = False
+                elif elapsed < 1.0:
+                    r.bad(f'indication/unconfirmed-call-did-not-wait/{api}/{hb.kind}{hsfx}', where)
+            else:
+                if premature:
+                    r.bad(f'indication/returned-before-confirmation/{api}/{hb.kind}/{fcls}{hsfx}', where)
+                elif outcome != 'cancelled':
+                    r.bad(f'indication/cancel/{api}/{hb.kind}{hsfx}/{outcome}', where)
+                    ok = False
         await rig_.quiesce()
         r.ev('notif_api_calls')
         r.ev(f'api_{api}_{fcls}')
         new = absorb()
+        if is_followup:
+            r.ev('followup_indications')
+        if fault is not None:
+            hb_hist = 'after-timeout' if fault.startswith('timeout') else 'after-cancel'
+            followup = (hb, c)
         if not ok:
+            if fault is not None:
+                hb.hist = hb_hist
             continue
         confirm_pos = {}
         if K == 'i':
@@ -913,8 +1378,14 @@ async def notif_case(case, r: R):
                         confirm_pos.setdefault(b.idx, seq)
         step_rec = {'api': api, 'force': force, 'target': hb.name if single else None, 'char': c.handle,
                     'value_len': len(full), 'subscribed': sorted(sub_now), 'got': {}}
+        if fault is not None:
+            step_rec['confirmation_withheld'] = (hb.name, fault)
+        if is_followup:
+            step_rec['after_failed_indication_on'] = (hb.name, hb.hist)
         for b in bearers:
-            bcls = f'{b.kind}/{fcls}'
+            bcls = f'{b.kind}/{fcls}' + (f'/{b.hist}' if b.hist and K == 'i' else '')
+            victim = fault is not None and b is hb
+            full = full_of(b)
             sent = [(seq, pdu) for seq, sender, pdu, _m in new[b.idx]
                     if sender == 0 and pdu[:1] in (b'\x1b', b'\x1d') and len(pdu) >= 3
                     and struct.unpack_from('<H', pdu, 1)[0] == c.handle]
@@ -965,13 +1436,27 @@ async def notif_case(case, r: R):
             exp_v = full[:m - 3]
             tcls = 'longer' if len(full) > m - 3 else 'fits'
             r.ev('truncation_checks')
-            r.check(pdu[3:] == exp_v, f'truncation/{api}/{b.kind}/{tcls}',
+            tkey = f'truncation/{api}/{b.kind}/{tcls}'
+            if value is None and c.scope:
+                # the server read the attribute on behalf of this bearer: value as seen by this bearer
+                tkey = f'per-bearer-read/{c.scope}-scoped-value/{api}/{b.kind}'
+                r.ev('bearer_scoped_pdu_values')
+            r.check(pdu[3:] == exp_v, tkey,
                     lambda: f'{b.name} ATT_MTU {m}: value of {len(full)} bytes arrived as {len(pdu) - 3} bytes '
                             f'(expected {len(exp_v)}); {ctx()}')
-            if K == 'i':
+            if K == 'i' and victim:
+                # the indication went out as an indication; its confirmation was withheld by the harness
+                r.ev('unconfirmed_indications_on_wire')
+            elif K == 'i':
                 r.ev('oracle_evals')
                 if len(confs) != 1:
-                    r.bad(f'indication/confirmations/{b.kind}', f'{b.name}: {len(confs)} confirmations for one indication; {ctx()}')
+                    r.bad(f'indication/confirmations/{b.kind}' + (f'/{b.hist}' if b.hist else ''),
+                          f'{b.name}: {len(confs)} confirmations for one indication; {ctx()}')
+                if b.hist:
+                    # deciding event of the error-path clause: an indication on a bearer whose earlier
+                    # indication timed out / was cancelled is on the wire as an indication and judged as usual
+                    r.ev('indications_after_failed')
+                    r.ev(f'indications_{b.hist.replace("-", "_")}')
                 r.ev('confirm_order_checks')
                 pos = confirm_pos.get(b.idx)
                 r.ev('oracle_evals')
@@ -991,8 +1476,22 @@ async def notif_case(case, r: R):
                       f'{len(other_cb)}); {ctx()}')
             elif any(v != pdu[3:] for v in got_cb):
                 r.bad(f'callback/value/{b.kind}', f'{b.name}: callback values differ from the PDU value; {ctx()}')
-        if len(sample_steps) < 4:
+        if fault is not None:
+            hb.hist = hb_hist
+        if len(sample_steps) < 4 or ((fault or is_followup) and len(sample_steps) < 8):
             sample_steps.append(step_rec)
+
+    # every bearer reads back per-bearer state through a different read path (state that differs from
+    # the other bearers of the connection first)
+    budget = 14
+    for hb in rng.sample(bearers, len(bearers)):
+        ts = list(read_targets)
+        rng.shuffle(ts)
+        ts.sort(key=lambda h: not differing(hb, h)[0])
+        for h in ts[:2]:
+            if budget > 0:
+                budget -= 1
+                await do_read(hb, h)
 
     await rig_.quiesce()
     wire.sync()
@@ -1217,7 +1716,10 @@ LEVEL_TEXT = ('~300 (quick) / ~9000 (thorough) generated databases x MTU prefere
               'link and compared with an independently computed handle layout and declaration values; ~180 / ~5200 '
               'multi-client subscription scenarios call every notify/indicate API form and are judged on the tapped '
               'wire (opcode, recipients, truncation to the wire-derived ATT_MTU-3, confirmation before return) and on '
-              'client callbacks; every discovery procedure is run against 13 non-progressing adversarial response '
+              'client callbacks; in the same scenarios every bearer reads CCCDs and bearer-/connection-scoped values back '
+              'through Read / Read Blob / Read By Type / Read Multiple (Variable) and is compared with what that bearer '
+              'wrote on the wire, and indications are left unconfirmed (30 virtual s timeout) or cancelled and followed '
+              'by another indication on the same bearer; every discovery procedure is run against 13 non-progressing adversarial response '
               'strategies with the requests counted on the wire (> 1000 or a virtual-time hang = violation). Held = no '
               'refuting execution among those observed; sampling, not proof.')
 LEVEL_NOTE = ('Trusted: vlib/ref_gatt.py (layout rule, declaration values, ATT/EATT wire parser, ~350 lines), the '
